@@ -60,7 +60,11 @@ EXPLANATION = (
     'table over the syntactic conditions; the reference accepts the '
     'rationalised root -2c/(b + sqrt(D)) exactly where b > 0); '
     '(D3.domain.dtype) every call of the compiled estimator passes an '
-    'expression that is float64 by construction; (D5.result.no-bypass) no return bypasses the iteration under a '
+    'expression that is float64 by construction; (D3.domain.precision) every declared C scalar of the compiled estimator into '
+    'which a floating-point value flows from the float64 buffers (def-use fixed point) - coefficients, root, pseudo '
+    'log-likelihood, remembered likelihood, tolerance - is a C double and the work buffers hold doubles (C `float` is 32 bit); a '
+    'tolerance test (np.isclose / math.isclose) inside an update is an atomic condition of its own that the exact test implies, '
+    'so a tolerance in the place of the reference\'s `a == 0` is a different function on an open set of counts; (D5.result.no-bypass) no return bypasses the iteration under a '
     'tolerance / ordering test on the counts; (D6.no-hidden-state) the estimator functions keep no state outside the '
     'call (no global/nonlocal, no store into a non-local object, no memoisation). Optimality against every '
     'reversible competitor is not decided.')
@@ -246,13 +250,18 @@ def _show(t, n=160):
 
 _COND_SYMS = {}
 _COND_NEG = {}
+_COND_BASE = {}         # ('T', text) -> ('Z', text of the same difference): e == 0 implies |e| <= tolerance
 
 
-def _feasible(on):
-    """The sign tests in `on` can hold together: not e > 0 with -e > 0, not e == 0 with e > 0 or -e > 0."""
+def _feasible(on, off=()):
+    """The tests in `on` can hold together while those in `off` fail: not e > 0 with -e > 0, not e == 0 with
+    e > 0 or -e > 0, not e == 0 without |e| <= tolerance (kind 'T': a tolerance test of the same difference)."""
     for kind, txt in on:
         neg = _COND_NEG.get(txt)
         if kind == 'P' and (('P', neg) in on or ('Z', min(txt, neg or txt)) in on):
+            return False
+    for c in off:
+        if c[0] == 'T' and _COND_BASE.get(c) in on:
             return False
     return True
 _ALLOWED = re.compile(r"^(?:(?:C|X)\[(?:i|j),(?:i|j)\]|(?:C_rs|X_rs)\[(?:i|j)\]|logl)'?$")
@@ -374,7 +383,7 @@ def cmp_tree(got, want, alts=()):
         return 'far', 'too many case distinctions'
     worst, why = 'match', ''
     for bits in itertools.product((True, False), repeat=len(cs)):
-        if not _feasible({c for c, pol in zip(cs, bits) if pol}):
+        if not _feasible({c for c, pol in zip(cs, bits) if pol}, {c for c, pol in zip(cs, bits) if not pol}):
             continue
         g, w = got, want
         others = list(alts)
@@ -417,6 +426,7 @@ class _Exec:
         self.asserts = []
         self.phase1 = None          # cells after the update, before the likelihood term
         self.scalars1 = None
+        self.cond_site = {}         # atomic condition -> the first `if` whose test made it
 
     # -- expressions
     def name(self, n):
@@ -481,6 +491,8 @@ class _Exec:
             return self.select(self.cond(n.test), self.ev(n.body), self.ev(n.orelse))
         if isinstance(n, (ast.Compare, ast.BoolOp)):
             return self.cond(n)
+        if isinstance(n, ast.Call) and (call_name(n) or '').split('.')[-1] in ('isclose', 'allclose'):
+            return self.close(n)
         if isinstance(n, ast.Call) and len(n.args) == 1 and not n.keywords:
             cn = call_name(n) or ''
             f = symx.FUNCS.get(cn)
@@ -493,6 +505,62 @@ class _Exec:
             if cn in ('float', 'np.float64', 'np.double'):
                 return self.ev(n.args[0])
         raise AnalysisIncomplete('expression outside the lifted vocabulary: %s' % u(n)[:100])
+
+    # tolerance tests on scalars: (positional names of the tolerances, their defaults)
+    _CLOSE = {'np.isclose': (('rtol', 'atol'), (1e-05, 1e-08), 'numpy'), 'numpy.isclose': (('rtol', 'atol'), (1e-05, 1e-08), 'numpy'),
+              'np.allclose': (('rtol', 'atol'), (1e-05, 1e-08), 'numpy'), 'numpy.allclose': (('rtol', 'atol'), (1e-05, 1e-08), 'numpy'),
+              'math.isclose': ((), (1e-09, 0.0), 'math')}
+
+    def close(self, n):
+        """`np.isclose(x, y[, rtol, atol])` (|x - y| <= atol + rtol*|y|) / `math.isclose(x, y, rel_tol=, abs_tol=)`
+        (|x - y| <= max(rel_tol*max(|x|, |y|), abs_tol)) on scalars as ONE atomic condition of kind 'T' on the
+        difference x - y.  It is implied by x - y == 0 (`_feasible`) and, when the tolerance is positive, holds on a
+        set with non-empty interior, so `T and not Z` is an inhabited case of the truth table.  A test whose
+        tolerance vanishes (no absolute part and a literal 0 on the relative side) IS the exact test -> kind 'Z'."""
+        sp = _sp()
+        cn = call_name(n) or ''
+        spec = self._CLOSE.get(cn)
+        if spec is None:
+            raise AnalysisIncomplete('tolerance test `%s`: numpy or math semantics not decided' % u(n)[:80])
+        pos_names, defaults, family = spec
+        if len(n.args) < 2 or any(isinstance(a, ast.Starred) for a in n.args) or len(n.args) > 2 + len(pos_names):
+            raise AnalysisIncomplete('tolerance test not modelled: %s' % u(n)[:80])
+        kw_names = ('rtol', 'atol') if family == 'numpy' else ('rel_tol', 'abs_tol')
+        tols = list(defaults)
+        for k, a in enumerate(n.args[2:]):
+            tols[k] = const_value(a)
+        for k in n.keywords:
+            if k.arg in kw_names:
+                tols[kw_names.index(k.arg)] = const_value(k.value)
+            elif k.arg == 'equal_nan' and const_value(k.value) in (True, False):
+                pass
+            else:
+                raise AnalysisIncomplete('tolerance test not modelled: %s' % u(n)[:80])
+        if any(isinstance(t, bool) or not isinstance(t, (int, float)) or t < 0 for t in tols):
+            raise AnalysisIncomplete('tolerance of `%s` is not a non-negative constant' % u(n)[:80])
+        rel, ab = tols
+
+        def mk(x, y):
+            e = sp.expand(x - y)
+            if not e.free_symbols and not x.free_symbols and not y.free_symbols:
+                bound = ab + rel * abs(y) if family == 'numpy' else max(rel * max(abs(x), abs(y)), ab)
+                return bool(abs(e) <= bound)
+            # the relative part vanishes identically next to a literal zero (numpy: rtol*|y|; math: |x| <= rel*|x| iff x == 0)
+            rel_dead = rel == 0 or (y == 0 if family == 'numpy' else ((x == 0 or y == 0) and rel < 1))
+            if ab == 0 and rel_dead:
+                return self.atom(x, ast.Eq, y)
+            base = min(str(e), str(sp.expand(-e)))
+            if rel_dead:
+                bound = '%g' % ab
+            elif family == 'numpy':
+                bound = '%g + %g*|%s|' % (ab, rel, y)
+            else:
+                bound = 'max(%g*max(|%s|, |%s|), %g)' % (rel, x, y, ab)
+            key = ('T', '|%s| <= %s' % (base, bound))
+            _COND_SYMS[key] = frozenset(s.name for s in (e.free_symbols | x.free_symbols | y.free_symbols))
+            _COND_BASE[key] = ('Z', base)
+            return _Ite(key, True, False)
+        return _ap(mk, self.ev(n.args[0]), self.ev(n.args[1]))
 
     def atom(self, l, op, r):
         sp = _sp()
@@ -595,6 +663,8 @@ class _Exec:
             return
         if isinstance(s, ast.If):
             c = self.cond(s.test)
+            for key in _conds(c):
+                self.cond_site.setdefault(key, s)
             if isinstance(c, bool):
                 self.run(s.body if c else s.orelse)
                 return
@@ -1121,15 +1191,36 @@ def sweep_model(ck, r):
             if v != 'match':
                 all_ok = False
                 # name the first intermediate that already differs from its reference counterpart
+                def foreign_test(got, wants):
+                    """The first `if` of the body whose test is a condition of `got` that no reference tree has:
+                    the value is selected by a case distinction the reference does not make (another test of the same
+                    quantity - a tolerance for an exact comparison, >= for > - or a test of another quantity)."""
+                    known = set()
+                    for w in wants:
+                        known |= _conds(w)
+                    sites = [ex.cond_site[c] for c in sorted(_conds(got) - known) if c in ex.cond_site]
+                    return sites[0] if sites else None
+                hit = None
                 for nm in ('a', 'b', 'c', 'v'):
                     if nm in ex.scalars1 and nm in ref.scalars1 and nm in ex.where:
-                        v2, why2 = cmp_tree(ex.scalars1[nm], ref.scalars1[nm], [al.scalars1[nm] for al in ref_alts if nm in al.scalars1])
+                        wants = [ref.scalars1[nm]] + [al.scalars1[nm] for al in ref_alts if nm in al.scalars1]
+                        v2, why2 = cmp_tree(ex.scalars1[nm], wants[0], wants[1:])
                         if v2 != 'match':
-                            node = ex.where[nm]
-                            construct = '%s: %s' % (impl, u(node)[:150])
-                            detail = '%s: `%s` differs from the reference Prinz equation %s = %s (it determines %s): %s' % (
-                                impl, u(node)[:150], nm, REFERENCE[nm], k, why2)
+                            hit = (nm, why2, foreign_test(ex.scalars1[nm], wants) if nm == 'v' else None)
                             break
+                test_site = hit[2] if hit else foreign_test(ex.phase1[k], [ref.phase1[k]] + [al.phase1[k] for al in ref_alts])
+                if test_site is not None:
+                    node = test_site
+                    construct = '%s: if %s' % (impl, u(node.test)[:140])
+                    detail = '%s: the new value of %s is selected by `if %s`, a case distinction the reference Prinz update does ' \
+                             'not make (reference: `a == 0` -> keep X[j,i], else the positive root %s; rationalised where `b > 0`): %s' % (
+                                 impl, k, u(node.test)[:100], REFERENCE['v'], hit[1] if hit else why)
+                elif hit:
+                    nm, why2 = hit[0], hit[1]
+                    node = ex.where[nm]
+                    construct = '%s: %s' % (impl, u(node)[:150])
+                    detail = '%s: `%s` differs from the reference Prinz equation %s = %s (it determines %s): %s' % (
+                        impl, u(node)[:150], nm, REFERENCE[nm], k, why2)
             if v != 'match' and (id(node), v) in blamed:
                 continue        # consequence of a construct that has been reported already
             blamed.add((id(node), v))
@@ -1227,7 +1318,7 @@ def _root_cancellation(ck, r, L, ex):
         on = {c for c, pol in zip(cs, bits) if pol}
         off = {c for c, pol in zip(cs, bits) if not pol}
         # impossible sign combinations of one quantity (e > 0 but not e >= 0)
-        if not _feasible(on):
+        if not _feasible(on, off):
             continue
         for t, e, txt in _cancelling_sums(leaf):
             found += 1
@@ -1276,13 +1367,13 @@ def _log_guard(ck, r, tag, L, ex, acc):
         for c, pol in zip(cs, bits):
             leaf = _restrict(leaf, c, pol)
         on = {c for c, pol in zip(cs, bits) if pol}
-        if isinstance(leaf, bool) or not _feasible(on):
+        off = {c for c, pol in zip(cs, bits) if not pol}
+        if isinstance(leaf, bool) or not _feasible(on, off):
             continue
         logs = leaf.atoms(LOGf)
         for lg in logs:
             n += 1
             num = sp.fraction(sp.together(lg.args[0]))[0]
-            off = {c for c, pol in zip(cs, bits) if not pol}
             if ('P', str(sp.expand(num))) not in on and ('NN', str(sp.expand(-num))) not in off:
                 verdict = 'near' if _closed(acc) else 'far'
                 why = 'log(%s) is evaluated when %s' % (lg.args[0], ' and '.join('%s%s(%s)' % ('' if pol else 'not ', c[0], c[1]) for c, pol in zip(cs, bits)) or 'always')
@@ -2426,6 +2517,153 @@ def d3_dtype(ck, rx, mp):
 
 
 # ---------------------------------------------------------------------------
+# D3: the compiled sibling computes in the precision of the Python one
+
+_C_DOUBLE = ('double', 'np.float64_t', 'np.double_t', 'np.npy_float64', 'np.npy_double', 'cython.double', 'np.float_t')
+_C_NARROW_FLOAT = ('float', 'np.float32_t', 'np.npy_float32', 'cython.float', 'np.float16_t', 'np.npy_float16', 'np.half_t')
+_C_INTEGRAL = re.compile(r'^(?:(?:unsigned |signed )?(?:char|short|int|long|long long)|unsigned|signed|bint|size_t|Py_ssize_t|ssize_t|'
+                         r'ptrdiff_t|np\.u?int(?:8|16|32|64|p|c)?_t|np\.npy_u?int(?:8|16|32|64|p)?|np\.long_t|np\.ulong_t|np\.uint_t|'
+                         r'cython\.(?:u?int|u?long|u?short|u?char|bint|size_t|Py_ssize_t))$')
+_FLOAT_FUNCS = ('sqrt', 'log', 'log10', 'log2', 'log1p', 'exp', 'expm1', 'fabs', 'pow', 'hypot', 'sin', 'cos', 'tan', 'atan', 'atan2',
+                'tanh', 'floor', 'ceil')
+_SAME_KIND_FUNCS = ('abs', 'max', 'min', 'fmax', 'fmin')
+
+
+def _float_flow(fn, float_buffers, float_names, constants=False):
+    """Names of `fn` into which a data-dependent floating-point value flows: least fixed point of "assigned an
+    expression that reads a cell of a float64 buffer, a libm / numpy floating function, or a name already in the
+    set" (index expressions and comparisons do not carry the value; `constants`: floating literals count too).
+    A quotient is floating only if an operand is (int / int is C division under language_level 2)."""
+    fl = set(float_names)
+
+    def fv(e):
+        if isinstance(e, ast.Constant):
+            return constants and isinstance(e.value, float)
+        if isinstance(e, ast.Name):
+            return e.id in fl
+        if isinstance(e, ast.Subscript):
+            return isinstance(e.value, ast.Name) and e.value.id in float_buffers
+        if isinstance(e, ast.BinOp):
+            return fv(e.left) or fv(e.right)
+        if isinstance(e, ast.UnaryOp):
+            return not isinstance(e.op, ast.Not) and fv(e.operand)
+        if isinstance(e, ast.IfExp):
+            return fv(e.body) or fv(e.orelse)
+        if isinstance(e, ast.Call):
+            last = (call_name(e) or '').split('.')[-1]
+            if last in _FLOAT_FUNCS or last in ('float', 'float64', 'double'):
+                return True
+            if last in _SAME_KIND_FUNCS:
+                return any(fv(a) for a in e.args if not isinstance(a, ast.Starred))
+        return False
+    changed = True
+    while changed:
+        changed = False
+        for s in walk_local(fn):
+            pairs = []
+            if isinstance(s, ast.Assign):
+                for t in s.targets:
+                    if isinstance(t, ast.Name):
+                        pairs.append((t, s.value))
+                    elif isinstance(t, (ast.Tuple, ast.List)) and isinstance(s.value, (ast.Tuple, ast.List)) and len(t.elts) == len(s.value.elts):
+                        pairs += [(a, b) for a, b in zip(t.elts, s.value.elts) if isinstance(a, ast.Name)]
+            elif isinstance(s, ast.AnnAssign) and s.value is not None and isinstance(s.target, ast.Name):
+                pairs.append((s.target, s.value))
+            elif isinstance(s, ast.AugAssign) and isinstance(s.target, ast.Name):
+                pairs.append((s.target, s.value))
+            for t, val in pairs:
+                if t.id not in fl and fv(val):
+                    fl.add(t.id)
+                    changed = True
+    return fl, fv
+
+
+def d3_precision(ck, rx):
+    """Sibling agreement on the ARITHMETIC: `_prinz_mle_py` holds every scalar of the sweep - the coefficients, the
+    root, the pseudo log-likelihood and the remembered one, the tolerance - in float64 (cells of float64 arrays,
+    numpy scalar functions of them, Python floats).  In the compiled estimator a C declaration fixes the
+    representation of a scalar: every declared C scalar into which a floating-point value flows (def-use fixed point
+    from the cells of the float64 buffers), or which is compared with such a value, has to be `double`.  `float` is
+    the 32-bit C type (not Python's float): the value is rounded to 24 bits at every store; an integer type
+    truncates it.  Three-valued: double -> ok; a narrower floating / an integral C type -> violation; a type outside
+    the table, or a narrow local that only ever holds literals -> not decided."""
+    rule = 'C12.D3.domain.precision'
+    mod, fn, impl = rx.mod, rx.fn, rx.impl
+    F = fn.name
+    decls = dict(getattr(fn, 'cy_argtypes', {}) or {})
+    decls.update(getattr(fn, 'cy_locals', {}) or {})
+    if not decls:
+        ck.ok(rule, mod, fn, '%s: no C declarations' % impl, 'every scalar is a Python float (double)')
+        return
+    where = {}
+    for n in ast.walk(fn):
+        if isinstance(n, ast.AnnAssign) and hasattr(n, 'cy_type') and isinstance(n.target, ast.Name):
+            where.setdefault(n.target.id, n)
+    buffers = {nm for nm, t in decls.items() if t.is_buffer}
+    fbuf = {nm for nm in buffers if (decls[nm].elem or '') in _C_DOUBLE + _C_NARROW_FLOAT}
+    # the role arrays are float64 in the Python sibling (C12.D4.copy, X = C + C.T): a declared element type must say so
+    n = 0
+    for nm in sorted(buffers & {rx.Cparam, rx.C, rx.X, rx.Xrs, rx.Crs}):
+        t = decls[nm]
+        if nm == rx.Cparam and nm in (getattr(fn, 'cy_argtypes', {}) or {}):
+            continue                    # the argument: C12.D3.domain.dtype
+        n += 1
+        construct = '%s: cdef %s %s' % (impl, t.text, nm)
+        if t.elem in _C_DOUBLE:
+            ck.ok(rule, mod, where.get(nm, fn), construct, 'buffer of doubles')
+        elif t.elem in _C_NARROW_FLOAT or _C_INTEGRAL.match(t.elem or ''):
+            ck.bad(rule, mod, where.get(nm, fn), F, construct,
+                   '%s: the work array `%s` is declared with element type %s, but the value assigned to it is float64 (sums of the '
+                   'float64 counts): Cython\'s buffer acquisition raises ValueError("Buffer dtype mismatch") for every input, while '
+                   'the pure-Python sibling returns the MLE' % (impl, nm, t.elem))
+        else:
+            ck.missing(rule, '%s: element type `%s` of `%s` not in the table' % (impl, t.elem, nm))
+    # data-dependent floating-point values: from the cells of the float64 buffers, through floating functions; the
+    # tolerance is a floating-point number by its role
+    data, _ = _float_flow(fn, fbuf, {rx.tol})
+    fl, _ = _float_flow(fn, fbuf, {rx.tol}, constants=True)
+    for nm in sorted(fl & set(decls), key=lambda k: (getattr(where.get(k), 'lineno', 0), k)):
+        t = decls[nm]
+        if t.is_buffer:
+            continue
+        if nm not in data:
+            # only floating literals are stored in it
+            if t.base not in _C_DOUBLE:
+                ck.missing(rule, '%s: `%s` is declared `%s` and assigned floating-point constants only: exactness not decided' % (impl, nm, t.text))
+            continue
+        n += 1
+        roles = [w for w, names in (('pseudo log-likelihood accumulator', set(rx.acc.values()) | {rx.logl}),
+                                    ('remembered log-likelihood of the convergence test', {getattr(rx, 'old', None)}),
+                                    ('convergence tolerance', {rx.tol})) if nm in names]
+        what = roles[0] if roles else 'scalar of the sweep'
+        construct = '%s: cdef %s %s' % (impl, t.text, nm)
+        if t.base in _C_DOUBLE:
+            ck.ok(rule, mod, where.get(nm, fn), construct, 'floating-point scalar held in a C double, as in the Python sibling')
+        elif t.base in _C_NARROW_FLOAT:
+            ck.bad(rule, mod, where.get(nm, fn), F, construct,
+                   '%s: `%s` (%s) is declared `%s`, the 32-bit C type (Python\'s `float` is a C double; in a cdef it is not): every '
+                   'value stored into it is rounded to 24 significant bits, while the pure-Python sibling keeps it in float64. For the '
+                   'log-likelihood this makes `abs(logl - oldlogl) > tol` (tol = 1e-10) False as soon as two successive sweeps round '
+                   'to the same float32, i.e. at a relative change of ~1e-7: the compiled estimator stops long before the Prinz '
+                   'equations hold to the tolerance, without a ConvergenceWarning, and disagrees with the Python implementation. '
+                   'Declare it `double`' % (impl, nm, what, t.text))
+        elif _C_INTEGRAL.match(t.base or ''):
+            ck.bad(rule, mod, where.get(nm, fn), F, construct,
+                   '%s: `%s` (%s) receives a floating-point value computed from the counts but is declared `%s`: the C conversion truncates '
+                   'it to an integer, while the pure-Python sibling keeps it in float64. Declare it `double`' % (impl, nm, what, t.text))
+        else:
+            ck.missing(rule, '%s: C type `%s` of `%s` (%s) not in the table' % (impl, t.text, nm, what))
+    # the accumulator chain itself must have been looked at (declared -> checked above; undeclared -> Python float)
+    for nm in sorted(set(rx.acc.values()) | {rx.logl}):
+        if nm not in decls:
+            n += 1
+            ck.ok(rule, mod, rx.reset, '%s: `%s` is an undeclared local' % (impl, nm), 'the accumulator is a Python float (double)')
+        elif nm not in data:
+            ck.missing(rule, '%s: no floating-point value was traced into the accumulator `%s`' % (impl, nm))
+    ck.floor(rule, n, 2, 'C scalars / buffers of %s that carry floating-point values' % F)
+
+
+# ---------------------------------------------------------------------------
 
 _MEMO_DECORATORS = ('lru_cache', 'cache', 'cached', 'memoize', 'memoized', 'cached_property')
 
@@ -2570,6 +2808,7 @@ def check(ck):
     if rx is not None:
         _guarded(ck, 'C12.D3.domain.layout', lambda ck_, r_: d3_layout(ck_, r_, mp), rx)
         _guarded(ck, 'C12.D3.domain.dtype', lambda ck_, r_: d3_dtype(ck_, r_, mp), rx)
+        _guarded(ck, 'C12.D3.domain.precision', d3_precision, rx)
     try:
         d6_no_hidden_state(ck, [(mp, mp.func('mle')), (mp, mp.func('_prinz_mle')), (mp, fp), (mx, fx)])
     except (AnalysisIncomplete, AttributeError, KeyError, IndexError, TypeError, ValueError, RecursionError) as e:
